@@ -81,6 +81,23 @@ SEGS = ["a", "b", "x.y", ".h", "..", ".", "", "a.", "...", "..b", "c.text", "é"
 BASES = ["", "", "", "b", "b/c", "..", "b/..", "../..", ".", "b/", "../b", "../../..", "x.y"]
 
 
+def gen_climb(rng):
+    """(name, base) whose '..' segments are NOT leading: some segments down, then more segments up than went down"""
+    down = [rng.choice(["a", "logs", "x.y", ".h", "é"]) for _ in range(rng.choice([1, 1, 2]))]
+    ups = [".."] * (len(down) + rng.choice([0, 1, 1, 2, 2, 3]))
+    mid = rng.choice([[], [], ["."], [""]])
+    leaf = rng.choice([[], ["x"], ["stolen"], ["c.text"], ["."]])
+    parts = down + mid + ups + leaf
+    r = rng.random()
+    if r < 0.5:
+        return "/".join(parts), rng.choice(["", "", "b", "."])
+    if r < 0.8:
+        # the climb sits in base, the name is ordinary or climbs one more
+        return rng.choice(["victim", "../victim", "a/../x", "main"]), "/".join(down + ups[:len(down) + rng.choice([0, 1, 2])])
+    k = rng.randrange(1, len(parts))
+    return "/".join(parts[k:]), "/".join(parts[:k])
+
+
 def gen_name(rng):
     r = rng.random()
     n = rng.choice([1, 1, 1, 2, 2, 3])
@@ -135,10 +152,14 @@ def gen_pre(rng, name, base, clean, filed, extensioned, fext):
 
 
 def gen_case(rng):
-    if rng.random() < 0.5:
+    r = rng.random()
+    if r < 0.45:
         return gen_revisit(rng)
-    name = gen_name(rng)
-    base = rng.choice(BASES)
+    if r < 0.6:
+        name, base = gen_climb(rng)
+    else:
+        name = gen_name(rng)
+        base = rng.choice(BASES)
     temp = rng.random() < 0.4
     clean = rng.random() < 0.4
     filed = rng.random() < 0.45
